@@ -492,12 +492,12 @@ def check_faults(rep):
             proto = fi.ALL_FORMATS[fmt]()
             proto.eat_chunk(data)
             proto.finish()
-            for name in list(proto._safety_checks):
+            for name in list(S.checks_of(proto)):
                 insp = S.clone_inspector(proto)
 
                 def boom(_e=exc):
                     raise _e('injected')
-                insp._safety_checks[name].target_fn = boom
+                S.checks_of(insp)[name].target_fn = boom
                 got = S.safety_outcome(insp)
                 rep.count('evaluations')
                 rep.count('fault_injections')
@@ -635,7 +635,7 @@ def replay(payload):
 
         def boom():
             raise exc('injected')
-        insp._safety_checks[payload['check']].target_fn = boom
+        S.checks_of(insp)[payload['check']].target_fn = boom
         got = S.safety_outcome(insp)
         return {'violates': not (isinstance(got, tuple) and got[0] == 'fail'), 'outcome': got}
     tmpdir = tempfile.mkdtemp(prefix='verif-c02-')
